@@ -148,6 +148,8 @@ def run(ctx):
             r_fold.discharged += 1
 
     # ---------------- SEG
+    window_rule(ctx, syn)
+    idxspace_rule(ctx, syn)
     r_seg = ctx.rule("C07.SEG", "SegmentationIter::next returns cursor..X and advances cursor to the same X; it stops only when cursor >= end")
     sg = syn.fn("next", self_ty="SegmentationIter", trait="Iterator")
     ctx.functions_analysed.add(sg.qual)
@@ -198,3 +200,100 @@ def run(ctx):
             guards.append(unparse(n["cond"], strip_ref=True))
     if guards != ["(self.cursor>=self.end)"]:
         ctx.report(r_seg, "termination", "SegmentationIter::next returns None under %s; it must stop exactly when cursor >= end (covering the whole range)" % guards, sg.file, sg.line)
+
+
+# ---------------------------------------------------------------------- WINDOW / IDXSPACE
+def window_rule(ctx, syn):
+    """the text-search iterators keep their window's end: after a hit only the begin of `self.offset` moves.
+    A new offset whose end is anything but the previous `self.offset.end` lets the search run past the end of
+    the selection it was asked to search."""
+    from synq import find, unparse, strip, walk
+    r = ctx.rule("C07.WINDOW", "every re-assignment of a search iterator's offset keeps the previous end (`self.offset.end`): the search never leaves the selection it was given")
+    n = 0
+    for f in syn.fns:
+        if f.file != "src/api/text.rs" or f.body is None or f.name != "next":
+            continue
+        # a reset to the whole text is legitimate only together with the move to the next resource
+        resets_ok = set()
+        for blk in walk(f.body):
+            if blk.get("k") == "block":
+                srcs = [unparse(st_.get("e")) if st_.get("k") == "exprstmt" else "" for st_ in blk["stmts"]]
+                if any(re.fullmatch(r"\(?self\.resourcecursor\+=1\)?", x_) for x_ in srcs):
+                    for st_ in blk["stmts"]:
+                        if st_.get("k") == "exprstmt" and st_["e"].get("k") == "assign" and unparse(st_["e"]["left"]) == "self.offset" and unparse(strip(st_["e"]["right"])) == "Offset::whole()":
+                            resets_ok.add(id(st_["e"]))
+        for a in find(f.body, "assign"):
+            if unparse(a["left"]) != "self.offset":
+                continue
+            if id(a) in resets_ok:
+                r.hit("%s|reset-with-next-resource" % f.qual)
+                continue
+            n += 1
+            rhs = strip(a["right"])
+            end = None
+            if rhs.get("k") == "structlit":
+                for fl in rhs["fields"]:
+                    if fl["name"] == "end":
+                        end = unparse(strip(fl["e"]))
+                if end is None and rhs.get("rest") is not None:
+                    end = unparse(strip(rhs["rest"])) + ".end"
+            elif rhs.get("k") == "call" and unparse(rhs["func"]) in ("Offset::new",) and len(rhs["args"]) == 2:
+                end = unparse(strip(rhs["args"][1]))
+            key = "%s|offset#%d" % (f.qual, n)
+            r.hit(key, sample={"iterator": f.qual, "new_end": end})
+            ctx.functions_analysed.add(f.qual)
+            if end not in ("self.offset.end", "self.offset.end.clone()"):
+                ctx.report(r, "%s|end" % f.qual, "%s re-assigns its search window with end `%s` instead of keeping `self.offset.end`: after the first hit the search continues to the end of the resource, beyond the selection it was asked to search" % (f.qual, end), f.file, a.get("l"))
+    ctx.floor(r, n, 2, "offset re-assignments in the search iterators")
+
+
+def idxspace_rule(ctx, syn):
+    """a list of selected indices (a Vec<usize> field) is walked by value; a counter over its *length* is a
+    position in the selection, not a selected index, and must not index the collection the list selects from"""
+    from synq import find, unparse, strip, walk, pat_names
+    r = ctx.rule("C07.IDXSPACE", "a counter over the length of an index list indexes only that list, never the collection its entries point into")
+    idxlists = {}
+    for sname, sd in syn.structs.items():
+        if sd.get("_file") != "src/api/text.rs":
+            continue
+        for fl in sd.get("fields") or []:
+            if re.sub(r"\s+", "", fl["ty"]["s"]) in ("Vec<usize>", "SmallVec<[usize;4]>", "&[usize]"):
+                idxlists.setdefault(sname, set()).add(fl["name"])
+    n = 0
+    for f in syn.fns:
+        if f.file != "src/api/text.rs" or f.body is None:
+            continue
+        owner = (f.self_ty or "").split("<")[0]
+        lists = idxlists.get(owner, set())
+        if not lists:
+            continue
+        lens = {}
+        for nd in walk(f.body):
+            if nd.get("k") == "let" and nd.get("init") is not None:
+                m = re.fullmatch(r"self\.(\w+)\.len\(\)", unparse(strip(nd["init"])))
+                if m and m.group(1) in lists:
+                    for nm in pat_names(nd["pat"]):
+                        lens[nm] = m.group(1)
+        for lp in find(f.body, "for"):
+            it = strip(lp["iter"])
+            if it.get("k") != "range" or it.get("end") is None:
+                continue
+            endsrc = unparse(strip(it["end"]))
+            lst = None
+            m = re.fullmatch(r"self\.(\w+)\.len\(\)", endsrc)
+            if m and m.group(1) in lists:
+                lst = m.group(1)
+            elif endsrc in lens:
+                lst = lens[endsrc]
+            if lst is None:
+                continue
+            ctrs = pat_names(lp["pat"])
+            n += 1
+            r.hit("%s|%s" % (f.qual, lst))
+            for ix in find(lp["body"], "index"):
+                base = unparse(strip(ix["base"]))
+                idx = unparse(strip(ix["index"]))
+                if idx in ctrs and base != "self." + lst:
+                    ctx.report(r, "%s|%s[%s]" % (f.qual, base, lst), "%s indexes `%s` with a counter that runs over the length of the index list `self.%s`: the counter is a position in the selection, the selected indices are the list's *values* - items the selection skipped are used instead of the selected ones" % (f.qual, base, lst), f.file, ix.get("l"))
+    r.notes.append("index lists: %s; counter loops over them: %d" % (dict((k, sorted(v)) for k, v in idxlists.items()), n))
+    ctx.floor(r, sum(len(v) for v in idxlists.values()), 1, "index-list fields in api/text.rs")
